@@ -67,8 +67,13 @@ func vParseMember(tok string, selfHost string) *Member {
 	// <id>[:kinds joined by +]   host = h<id>:1 (self: engine address)
 	parts := strings.SplitN(tok, ":", 2)
 	m := &Member{ID: parts[0], Host: "h" + parts[0] + ":1", Region: "default"}
-	if parts[0] == "A" {
+	switch parts[0] {
+	case "A":
 		m.Host = selfHost
+	case "F": // F shares B's address, G shares C's (a node restarted on its old address under a new id)
+		m.Host = "hB:1"
+	case "G":
+		m.Host = "hC:1"
 	}
 	if len(parts) == 2 && parts[1] != "" {
 		m.Kinds = strings.Split(parts[1], "+")
@@ -210,7 +215,7 @@ func TestVerifMembers(t *testing.T) {
 	}
 	r := vgen.NewRng(vgen.Seed())
 	n := vgen.Scale(250, 4000)
-	others := []string{"B", "C", "D", "E"}
+	others := []string{"B", "C", "D", "E", "F", "G"}
 	for i := 0; i < n; i++ {
 		rr := r.Fork()
 		var selfKinds []string
